@@ -56,9 +56,9 @@ def prop(pid, title, **kw):
 C01_E2 = ['PUSH_BACK', 'PUSH_FRONT', 'TRY_PUSH_BACK', 'TRY_PUSH_FRONT', 'POP_BACK', 'POP_FRONT', 'REMOVE']
 prop('C01', 'every mutator implements bounded-deque semantics', stubs=[ROT_STUB], e1_configs_thorough=['plain'], bounds=dict(E1=E1_BOUNDS, E2=E2_BOUNDS),
      # second engine on the single-element operations: the same statements about the same functions from a different compilation (MIR -> C)
-     e2=[dict(tag='std', features=['std', 'alloc'], jobs=e2_jobs([(s, 3, QN5) for s in C01_E2], [(s, 3, TN5) for s in C01_E2]))])
+     e2=[dict(tag='std', features=['std', 'alloc'], auxiliary=True, jobs=e2_jobs([(s, 3, QN5) for s in C01_E2], [(s, 3, TN5) for s in C01_E2]))])
 prop('C02', 'single-element insertion never loses an element', seed_extras=True, bounds=dict(E1=E1_BOUNDS, E2=E2_BOUNDS),
-     e2=[dict(tag='std', features=['std', 'alloc'], jobs=e2_jobs([(s, 3, QN5) for s in C01_E2[:4]], [(s, 3, TN5) for s in C01_E2[:4]]))])
+     e2=[dict(tag='std', features=['std', 'alloc'], auxiliary=True, jobs=e2_jobs([(s, 3, QN5) for s in C01_E2[:4]], [(s, 3, TN5) for s in C01_E2[:4]]))])
 prop('C03', 'every element dropped exactly once, never while reachable', thorough_reach=False, stubs=[ROT_STUB], code_failures_count=False)
 C04_E2 = ['TRUNCATE_BACK', 'TRUNCATE_FRONT', 'CLEAR', 'EXTEND_FROM_SLICE', 'FILL_WITH', 'CLONE_FROM', 'DRAIN_DROP']
 prop('C04', 'unoccupied storage is never observed', thorough_reach=False, code_failures_count=False, jobs=12, stubs=[ROT_STUB],
@@ -76,7 +76,7 @@ prop('C06', 'panic in user code leaves a valid buffer, nothing leaked', e1_confi
 prop('C07', 'all views agree; mutable views alias exactly those elements', seed_extras=True, e1_configs_thorough=['plain'], stubs=[ROT_STUB])
 prop('C08', 'iterators obey the double-ended exact-size protocol', seed_extras=True, e1_configs_thorough=['plain'])
 prop('C09', 'drain removes exactly the range, keeps the rest in order', bounds=dict(E1=E1_BOUNDS, E2=E2_BOUNDS), e1_configs_thorough=['plain'],
-     e2=[dict(tag='std', features=['std', 'alloc'], jobs=e2_jobs([('DRAIN_DROP', 3, QN5)], [('DRAIN_DROP', 3, TN5)]))])
+     e2=[dict(tag='std', features=['std', 'alloc'], auxiliary=True, jobs=e2_jobs([('DRAIN_DROP', 3, QN5)], [('DRAIN_DROP', 3, TN5)]))])
 prop('C10', 'leaking a drain is safe', seed_extras=True, e1_configs=['default', 'plain'])
 prop('C11', 'panics exactly when documented, otherwise total', thorough_reach=False, bounds=dict(E1=E1_BOUNDS, E2=E2_BOUNDS),
      e2=[dict(tag='std', features=['std', 'alloc'], jobs=e2_jobs([(s, 0, QN5) for s in C11_SCENS], [(s, 0, TN5) for s in C11_SCENS]))])
